@@ -8,7 +8,7 @@
    (all switch settings x cache modes, repeats, clear_cache, cache-mode changes, re-set_up for the same and
    other geometries) together with the cache call-outs and directly computed reference rows.
 3. TLC (Trace_Symmetries, Trace_MatrixCache) must explain every recorded line."""
-import os, json
+import os, json, time
 import concurrent.futures as cf
 from . import lib
 
@@ -20,6 +20,7 @@ def _model_checks(ctx):
     w = 4 if q else 8
     r = lib.tlc("MC_Symmetries", cfg="MC_Symmetries" if q else "MC_Symmetries_thorough", workers=w, timeout=1500, heap="6g")
     ctx.mc_must_pass(r, "symmetry algebra S1-S3, switch guards, every operation class used", "MC_Symmetries")
+    lib.log("  [%4.0fs] MC_Symmetries done" % (time.time() - ctx.t0))
     r = lib.tlc("MC_MatrixCache", cfg="MC_MatrixCache" if q else "MC_MatrixCache_thorough", workers=w, timeout=1500, heap="6g")
     ctx.mc_must_pass(r, "row cache and set-up life cycle, all short histories; cache key injective (S4)", "MC_MatrixCache")
     # vacuity guard: each faulty variant of the model must violate an invariant
@@ -28,6 +29,7 @@ def _model_checks(ctx):
         if not r.violation:
             raise lib.ModelFailure("faulty variant '%s' of MatrixCache.tla is not refuted: the invariants have lost their teeth" % d)
         ctx.notes.append("faulty model variant %s refuted after %d states" % (d, r.generated))
+    lib.log("  [%4.0fs] MC_MatrixCache (+3 faulty variants) done" % (time.time() - ctx.t0))
 
 
 def _block_replay(recs, at):
@@ -107,12 +109,14 @@ def run(ctx):
         lib.run_driver(exe, ["sym", t1, 0 if q else 1], env=env, timeout=1200)
         t2 = os.path.join(ctx.work, "rows.ndjson")
         lib.run_driver(exe, ["rows", t2, 0 if q else 1], env=env, timeout=2400)
+        lib.log("  [%4.0fs] traces recorded" % (time.time() - ctx.t0))
         if fut:
             fut.result()
     # 2. validate
     c1 = lib.split_trace(t1, os.path.join(ctx.work, "chunks"), maxlines=25000, boundary="SymCfg")
     c2 = lib.split_trace(t2, os.path.join(ctx.work, "chunks"), maxlines=6000, boundary="Config")
     _validate(ctx, "Trace_Symmetries", c1, jobs, "SymCfg")
+    lib.log("  [%4.0fs] %d symmetry chunks validated" % (time.time() - ctx.t0, len(c1)))
     _validate(ctx, "Trace_MatrixCache", c2, jobs, "Config")
     ctx.exhaustive = False
     ctx.assumptions = [
